@@ -184,6 +184,7 @@ def h_repeatable(ctx, name):
     """Functions without randomness: repeated calls give identical results."""
     Y = ctx.tt('y', [2, 2], 2)
     Z = ctx.tt('z', [2, 2], 1)
+    D = ctx.tt('d', [1, 2], 2) if 'dummy' in name else None
     calls = {
         'add': lambda: teneva.add(Y, Z), 'mul': lambda: teneva.mul(Y, Z), 'sub': lambda: teneva.sub(Y, Z),
         'full': lambda: teneva.full(Y), 'get': lambda: teneva.get(Y, [1, 0]), 'sum': lambda: teneva.sum(Y),
@@ -196,6 +197,13 @@ def h_repeatable(ctx, name):
         'grid_prep_opts': lambda: teneva.grid_prep_opts(-1., 2., 3, 2),
         'matrix_delta': lambda: teneva.matrix_delta(2, 1, 2, 3.),
         'ind_tt_to_qtt': lambda: teneva.ind_tt_to_qtt(np.array([1, 2]), 4),
+        # leading mode of size 1: single-row unfolding in the left sweep
+        'orthogonalize_dummy': lambda: teneva.orthogonalize(D, 1),
+        'orthogonalize_left_dummy': lambda: teneva.orthogonalize_left(D, 0),
+        'truncate_dummy': lambda: teneva.truncate(D, 1.E-2),
+        'grid_prep_opt': lambda: teneva.grid_prep_opt(3, 2, int),
+        'ind_to_poi': lambda: teneva.ind_to_poi(np.array([[0, 1], [2, 0]]), -2., 3., 3),
+        'poi_to_ind': lambda: teneva.poi_to_ind(np.array([[-1., 0.5]]), -2., 3., 3),
     }
     f = calls[name]
     first = _flat(f())
@@ -297,6 +305,23 @@ def h_concrete_seeded(ctx, case):
     elif case == 'sample_func':
         A = teneva.func_int(teneva.rand([4, 4], 1, seed=6))
         call = lambda: teneva.sample_func(A, seed=7)
+    elif case == 'anova_sample':
+        # ANOVA.sample draws from the generator of the model only, in every branch (all candidate
+        # values positive / all non-positive or zero: the "probabilities are zeros" branch), for
+        # an integer seed and for a generator object
+        I = teneva.sample_lhs([3, 4, 3], 30, seed=2)
+        base = np.sin(np.arange(30.)) + 2.
+
+        def call():
+            out = []
+            for y in (base, -base, 0. * base):
+                for order in (1, 2):
+                    for sq in (False, True):
+                        A = teneva.ANOVA(I, y, order, seed=5)
+                        out.append(np.array([A.sample(with_square=sq) for _ in range(12)]))
+                        B = teneva.ANOVA(I, y, order, seed=np.random.default_rng(3))
+                        out.append(np.array([B.sample(with_square=sq) for _ in range(12)]))
+            return out
     elif case == 'als_func_repeat':
         # deterministic routine called twice with the very same objects (unregularised branch included)
         rng = np.random.default_rng(5)
@@ -309,6 +334,17 @@ def h_concrete_seeded(ctx, case):
             a = teneva.als_func(X, y, A0, nswp=2, lamb=lamb)
             b = teneva.als_func(X, y, A0, nswp=2, lamb=lamb)
             ok = ok and _identical(ctx, _flat(a), _flat(b))
+        # info left at its default with a convergence criterion in use: what the previous call
+        # left in the shared dictionary (its last 'e', its stop reason) must not steer the next one
+        for e_ in (0.5, 1e-1, 1e-3):
+            fresh = {}
+            a = teneva.als_func(X, y, A0, nswp=6, e=e_, info=fresh)
+            teneva.als_func(X, y, A0, nswp=6, e=e_)
+            b = teneva.als_func(X, y, A0, nswp=6, e=e_)
+            i3 = {}
+            c = teneva.als_func(X, y, A0, nswp=6, e=e_, info=i3)
+            ok = ok and _identical(ctx, _flat(a), _flat(b)) and _identical(ctx, _flat(a), _flat(c))
+            ok = ok and fresh['nswp'] == i3['nswp'] and fresh['stop'] == i3['stop']
         I = teneva.sample_lhs([4, 4, 4], 40, seed=1)
         yy = rng.normal(size=40)
         for kw in ({}, {'lamb': None}, {'lamb': None, 'w': np.ones(40)}, {'update_sol': 1e-2}, {'update_sol': 0.5, 'lamb': 1e-2}):
@@ -368,15 +404,16 @@ def instances(tier):
     out.append({'func': 'h_anova_history', 'params': {}})
     out.append({'func': 'h_restart_generator', 'params': {}, 'opts': {'symbolic_signs': False}})
     for case in ('cross_act_0', 'cross_act_1', 'cross_act_2', 'cross_act_3', 'core_qr_rand', 'sample_func', 'sample_func_history',
-                 'als_func_repeat', 'lhs_after_history'):
+                 'als_func_repeat', 'lhs_after_history', 'anova_sample'):
         out.append({'func': 'h_concrete_seeded', 'params': {'case': case}, 'opts': {'concrete_only': True}})
     for name in ['rand', 'rand_norm', 'rand_stab', 'sample', 'sample_lhs', 'sample_rand', 'sample_rand_poi',
                  'sample_tt', 'sample_square', 'sample_square_dup', 'anova']:
         out.append({'func': 'h_seeded', 'params': {'name': name}, 'opts': {'symbolic_signs': False}})
     for name in ['func_diff_matrix', 'func_basis', 'grid_prep_opts', 'matrix_delta', 'ind_tt_to_qtt',
                  'add', 'mul', 'sub', 'full', 'get', 'sum', 'mul_scalar', 'const', 'delta', 'poly', 'grid_flat',
-                 'interface', 'cache_to_data']:
-        out.append({'func': 'h_repeatable', 'params': {'name': name}})
+                 'interface', 'cache_to_data', 'orthogonalize_dummy', 'orthogonalize_left_dummy', 'truncate_dummy',
+                 'grid_prep_opt', 'ind_to_poi', 'poi_to_ind']:
+        out.append({'func': 'h_repeatable', 'params': {'name': name}, 'opts': {'symbolic_signs': False}})
     return out
 
 
